@@ -243,7 +243,8 @@ def bounded_codec(prop):
     against a specification-derived codec (bounded/codec.py)."""
     from . import replays
     t0 = time.time()
-    want = {'C01': ('codec.',), 'C02': ('codec.roundtrip', 'codec.encode-leaves-the-payload-untouched', 'msgpack.')}[prop]
+    want = {'C01': ('codec.',), 'C02': ('codec.roundtrip', 'codec.encode-leaves-the-payload-untouched', 'msgpack.roundtrip'),
+            'C12': ('msgpack.refuses',)}[prop]
     try:
         res = replays.run_codec()
     except Exception as e:      # noqa: BLE001
@@ -330,14 +331,45 @@ def gate_g0(mod, cls, fname, tests, mark):
     return out
 
 
+def gate_g2():
+    """(g2) the "being disconnected" mark outlives the membership: basic_disconnect drops the mark only after the client has left
+    every room, so that at no intermediate point is the client "connected and unmarked" again (is_connected() would then
+    let a second terminator through).  Syntactic, over the statement order of the real function."""
+    t0 = time.time()
+    name = 'base_manager.BaseManager.basic_disconnect/gate.g2.mark-dropped-only-after-leaving-every-room'
+    found = source.find_method('base_manager', 'BaseManager', 'basic_disconnect')
+    if not found:
+        return [ob(name, 'undecided', 'gate', t0, 'function not found')]
+    fn = found[2]
+    leaves = [(n.lineno, n.col_offset) for n in ast.walk(fn) if isinstance(n, ast.Call) and isinstance(n.func, ast.Attribute) and n.func.attr == 'basic_leave_room']
+    drops = []
+    for n in ast.walk(fn):
+        txt = None
+        if isinstance(n, ast.Call) and isinstance(n.func, ast.Attribute) and n.func.attr in ('remove', 'pop', 'discard', 'clear'):
+            txt = ast.unparse(n.func.value)
+        elif isinstance(n, ast.Delete):
+            txt = ' '.join(ast.unparse(t) for t in n.targets)
+        elif isinstance(n, (ast.Assign, ast.AugAssign)):
+            txt = ' '.join(ast.unparse(t) for t in (n.targets if isinstance(n, ast.Assign) else [n.target]))
+        if txt and 'pending_disconnect' in txt:
+            drops.append((n.lineno, n.col_offset))
+    if not leaves or not drops:
+        return [ob(name, 'undecided', 'gate', t0, 'leave calls: %d, mark removals: %d' % (len(leaves), len(drops)))]
+    ok = min(drops) > max(leaves)
+    return [ob(name, 'proved' if ok else 'refuted', 'gate', t0,
+               None if ok else 'the mark is dropped at line %d, the client leaves its rooms at line %d: in between it is connected and unmarked' % (min(drops)[0], max(leaves)[0]))]
+
+
 def run(prop, tier, seed):
     out = []
+    if prop in ('C20', 'C04'):
+        out += gate_g2()
     if tier == 'thorough':
         WITNESS_RUNS[prop] = witnesses(prop)
         os.environ['VERIF_BOUNDED_DEPTH'] = '3'
     if prop == 'C01':
         out += lean_lemmas()
-    if prop in ('C01', 'C02'):
+    if prop in ('C01', 'C02', 'C12'):
         out += bounded_codec(prop)
     if prop == 'C07':
         out += cluster_lemmas(seed)
